@@ -31,6 +31,7 @@ TASK: produce {n} DIFFERENT, independent patches (each against the clean worktre
   - split a long chained expression into two statements, or join two statements into one expression;
   - move an argument check a few lines (still before first use), or merge two consecutive checks;
   - extract a few lines into a small private helper function in the same module and call it (keep TorchScript-compatibility where the function is decorated with @script: type-annotate the helper and decorate it with @script too), or inline a tiny private helper.
+Spread the edits: at least one patch should concentrate on secondary code paths (argument validation, the Module wrapper, the command-line driver, option handling, error branches) rather than the main computation, and at least one should restructure control flow (guard clauses <-> if/else, loop <-> comprehension, merging or splitting branches, hoisting a common statement out of two branches or duplicating it into them).
 Every patch MUST keep the observable behaviour exactly the same for ALL inputs (same values, same dtypes, same exceptions for invalid input, same files written in the same order). Do not fix bugs, do not change defaults, messages may keep their text. If you are not sure an edit is exactly equivalent, do not make it. Keep each patch moderate (5-40 changed lines). Do not only rename: at most one patch may be rename-only.
 
 For each patch i (1..{n}):
